@@ -5024,10 +5024,9 @@ class PyCdlib:
             # new_dir() below already counts the new directory in the Rock Ridge
             # link counts of its parent, so a name that _add_child_to_dr() is
             # going to refuse as a duplicate has to be refused before that.
-            if not (parent.rock_ridge is not None and parent.file_identifier() == b'RR_MOVED'):
-                for child in parent.children:
-                    if child.file_ident == name and not child.is_associated_file():
-                        raise pycdlibexception.PyCdlibInvalidInput('Failed adding duplicate name to parent')
+            for child in parent.children:
+                if child.file_ident == name and not child.is_associated_file():
+                    raise pycdlibexception.PyCdlibInvalidInput('Failed adding duplicate name to parent')
 
             relocated = False
             fake_dir_rec = None
